@@ -30,6 +30,7 @@ func vpSetupPacket(i int) []byte {
 // vpEnding: how the client side ends after `good` well-formed packets.
 //   0 connection drops (read error)   1 CLOSE_CHANNEL   2 out-of-order packet (handshake again)
 //   3 unframeable bytes (length field 3)   4 unknown packet type then drop   5 another CHANNEL_CREATE (other host)
+//   6 a DATA packet that consists of its header only, then drop
 func vpScript(good, ending int) *vpTransport {
 	tr := &vpTransport{}
 	n := good
@@ -50,6 +51,8 @@ func vpScript(good, ending int) *vpTransport {
 			return []byte{0xA, 0, 0, 0, 3, 0, 0, 0, 1, 2}
 		case 5:
 			return vpPacket(8, []byte{1, 0, 0x3d, 0x0d, 3, 0, 2, 0, 'z', 0})
+		case 6:
+			return vpPacket(0xA, []byte{}) // a DATA packet that is only a header, then the connection drops
 		}
 		return vpPacket(0x77, []byte{})
 	}
@@ -72,13 +75,13 @@ func vpCheckReleased(t *Tunnel, trs []*vpTransport, label string) {
 
 //vp:property C11
 //vp:set good 6 8
-//vp:bounds websocket transport; 0..good well-formed packets (handshake, tunnel-create, tunnel-auth, channel-create, then DATA) followed by each of six ways the client side can end: connection drop, CLOSE_CHANNEL, out-of-order handshake, unframeable bytes, unknown packet type + drop, a further CHANNEL_CREATE for another host; the backend is quiet or has one chunk in flight towards the client, and stays open or hangs up first (the relay goroutine runs whenever the packet loop waits for the client); dial succeeding or failing; writes to the client failing from the n-th response on (n = 1..5) or never
+//vp:bounds websocket transport; 0..good well-formed packets (handshake, tunnel-create, tunnel-auth, channel-create, then DATA) followed by each of seven ways the client side can end: connection drop, CLOSE_CHANNEL, out-of-order handshake, unframeable bytes, unknown packet type + drop, a further CHANNEL_CREATE for another host, a header-only DATA packet + drop; the backend is quiet or has one chunk in flight towards the client, and stays open or hangs up first (the relay goroutine runs whenever the packet loop waits for the client); dial succeeding or failing; writes to the client failing from the n-th response on (n = 1..5) or never
 //vp:assume one cooperative schedule (goroutines switch where the running one waits; the rest run to completion after the handler returns); "bounded time" is reduced to "no goroutine of the tunnel is left parked forever"
 //vp:reach ended
 func VP_C11_ws() {
 	vpResetHandlers()
 	good := vpIntRange("good", 0, vpParam("good"))
-	ending := vpIntRange("ending", 0, 5)
+	ending := vpIntRange("ending", 0, 6)
 	tr := vpScript(good, ending)
 	vpNextTransports = []*vpTransport{tr}
 	// the host side: quiet, or one chunk in flight towards the client; it stays open or hangs up first
@@ -108,7 +111,7 @@ func VP_C11_ws() {
 func VP_C11_legacy() {
 	vpResetHandlers()
 	good := vpIntRange("good", 0, vpParam("good"))
-	ending := vpIntRange("ending", 0, 5)
+	ending := vpIntRange("ending", 0, 6)
 	out := &vpTransport{}
 	in := vpScript(good, ending)
 	// the IN connection may be dropped right after it was accepted, before its first byte
